@@ -15,16 +15,22 @@ FUNCTIONS = [
 ]
 ASSUMPTIONS = [
     'ids are mathematical integers in 0..255; id-blind structural hash on the Pattern dataclasses; bytes() shadowed in the serialiser; output files are in-memory sinks',
-    'interpreter stacks compared: Basic, Stateful, Counting, Serializing, PrettyPrinting, Memoizing(Stateful), Memoizing(Serializing), InstantiationOptimizer(Basic), InstantiationOptimizer(Stateful), Memoizing(InstantiationOptimizer(Serializing))',
+    'interpreter stacks compared: Basic, Stateful, Counting, Serializing, PrettyPrinting, Memoizing(Stateful), Memoizing(Serializing) (empty memo set), InstantiationOptimizer(Basic), InstantiationOptimizer(Stateful), Memoizing(InstantiationOptimizer(Serializing)), the Counting -> finalize -> Memoizing(Stateful|Serializing) pipeline of ProofExp.serialize(optimize=True), and Memoizing over every pattern the counting run has seen',
     'an interpreter "fails" when it raises any Exception; stateful interpreters start with the declared axioms in memory',
 ]
 OUTSIDE = 'proof expressions deeper than the grammar bound; library lemmas at argument sizes above 1'
 EXPLANATION = (
     'proof expressions (a grammar over the raw rules with symbolic argument patterns, including empty, repeated, identity and out-of-order instantiations, '
-    'and the library lemmas) are run symbolically through ten interpreter stacks; all must succeed with equal conclusions, equal to the advertised one, or all must raise'
+    'and the library lemmas) are run symbolically through fourteen interpreter stacks; all must succeed with equal conclusions, equal to the advertised one, or all must raise'
 )
 
-STACKS = ('basic', 'stateful', 'counting', 'serializing', 'pretty', 'memo(stateful)', 'memo(serializing)', 'instopt(basic)', 'instopt(stateful)', 'memo(instopt(serializing))')
+STACKS = (
+    'basic', 'stateful', 'counting', 'serializing', 'pretty', 'memo(stateful)', 'memo(serializing)', 'instopt(basic)', 'instopt(stateful)', 'memo(instopt(serializing))',
+    # the optimisation pipeline of ProofExp.serialize: Counting -> finalize() -> Memoizing over the suggested set
+    'pipeline(stateful)', 'pipeline(serializing)',
+    # Memoizing over every pattern the counting run has seen
+    'memo-all(stateful)', 'memo-all(serializing)',
+)
 
 PROFS: dict[str, Prof] = {}
 
@@ -105,12 +111,22 @@ def make(kind: str, axioms: list) -> Any:
     raise AssertionError(kind)
 
 
+def make_memo(kind: str, axioms: list, th: Any) -> Any:
+    from proof_generation.optimizing_interpreters import MemoizingInterpreter
+
+    c = make('counting', axioms)
+    th(c)
+    suggested = c.finalize()
+    memo = set(c._pattern_usage) if kind.startswith('memo-all') else suggested
+    return MemoizingInterpreter(make('stateful' if kind.endswith('(stateful)') else 'serializing', axioms), memo)
+
+
 def compare(ctx: Any, th: Any, axioms: list, what: str, label: str, stacks: tuple = ()) -> None:
     outcomes = {}
     STACKS = stacks or globals()['STACKS']
     for k in STACKS:
         try:
-            r = th(make(k, axioms))
+            r = th(make_memo(k, axioms, th) if k.startswith(('pipeline', 'memo-all')) else make(k, axioms))
             outcomes[k] = ('ok', O.expand(r.conclusion))
         except Exception as e:
             outcomes[k] = ('raise', type(e).__name__)
@@ -136,8 +152,11 @@ def _delta(ctx: Any, prof: str, allow_identity: bool = True) -> dict:
     keys = orders[ctx.choose(len(orders), 'keys')]
     d = {}
     for k in keys:
-        o = ctx.choose(5 if prof == 'val2' else 4, 'value')
-        if o == 0:
+        o = ctx.choose(6 if prof == 'val2' else 5, 'value')
+        if o == 4 and prof != 'val2' or o == 5:
+            # prints like the clean MetaVar(1) but is a different pattern
+            d[k] = P.MetaVar(1, e_fresh=(P.EVar(0),))
+        elif o == 0:
             d[k] = P.MetaVar(k)  # identity binding
         elif o == 1:
             d[k] = P.EVar(ctx.int('e'))
@@ -212,7 +231,7 @@ def h_lemma(ctx: Any, name: str, twin: bool = False) -> None:
     from proof_generation import pattern as P
 
     # concrete ids here: a lemma run costs seconds across the interpreter stacks, symbolic ids would re-execute it per fork
-    pool = [P.EVar(0), P.EVar(1), P.MetaVar(0), P.MetaVar(1, (P.EVar(0),)), P.bot()]
+    pool = [P.EVar(0), P.EVar(1), P.MetaVar(0), P.MetaVar(1, (P.EVar(0),)), P.MetaVar(1), P.bot()]
     vals = {l: pool[ctx.choose(len(pool), 'leaf')] for l in info['letters']}
     prem, concl = info['schema']
     t = Tautology()
@@ -235,7 +254,7 @@ def h_lemma(ctx: Any, name: str, twin: bool = False) -> None:
     compare(ctx, th, list(t._axioms), f'{name} with {vals!r}', f'lemma.{name}', LEMMA_STACKS)
 
 
-LEMMA_STACKS = ('basic', 'stateful', 'counting', 'serializing', 'pretty', 'memo(serializing)', 'instopt(stateful)')
+LEMMA_STACKS = ('basic', 'stateful', 'counting', 'serializing', 'pretty', 'memo(serializing)', 'instopt(stateful)', 'pipeline(stateful)', 'pipeline(serializing)', 'memo-all(serializing)')
 QUICK_LEMMAS = ('imp_refl', 'imp_transitivity', 'ant_commutativity', 'absurd', 'con1', 'and_intro', 'and_l', 'or_comm_imp', 'equiv_sym', 'or_assoc_r', 'dne_l_i', 'lemma1')
 
 
@@ -255,7 +274,7 @@ def levels(tier: str) -> list[dict]:
 
 
 def run(tier: str) -> dict:
-    lv = levels(tier)
+    lv = common.tiered(levels, tier)
     big = [l for l in lv if not l.get('small')]
     small = [l for l in lv if l.get('small')]
     res = common.run_levels(big)
